@@ -1436,7 +1436,7 @@ def run(ctx):
     'the FrozenDict stored back into the source) over the 17-18 operation alphabet per handle' + ('; plus 12000 sampled three-operation continuations' if thorough else '')
   )
   ctx.count('exhaustive_histories', 'depth2+', len(exh))
-  n_hist = 1100 if not thorough else 40000
+  n_hist = 900 if not thorough else 40000
   err = steps = 0
   for i in range(0, n_hist, 400):
     e, s = run_histories(ctx, drv, min(400, n_hist - i))
@@ -1448,7 +1448,7 @@ def run(ctx):
     raise InfraError(f'history generator degenerated: {err}/{steps} steps raise')
   n_struct = 400 if not thorough else 6000
   cases = [gen_struct_case(ctx.rng) for _ in range(n_struct)]
-  run_structs(ctx, drv, cases, heavy_every=(20 if not thorough else 10))
+  run_structs(ctx, drv, cases, heavy_every=(25 if not thorough else 10))
   ctx.sample({'kind': 'struct', 'case': cases[0]})
   cross_process_pickle(ctx)
   ctx.extra['driver_calls'] = drv.calls
